@@ -343,8 +343,9 @@ type muxCfg struct {
 	PartMS    int         `json:"part_min_ms"`
 	Disk      bool        `json:"disk,omitempty"`
 	MaxSize   uint64      `json:"max_size,omitempty"`
-	OpusTicks int         `json:"opus_ticks,omitempty"` // Opus packet duration in 48 kHz ticks (default 960 = 20 ms)
-	OpusMix   bool        `json:"opus_mix,omitempty"`   // packet k of one WriteOpus call lasts 20, 10, 40 ms (k mod 3)
+	OpusTicks int         `json:"opus_ticks,omitempty"`  // Opus packet duration in 48 kHz ticks (default 960 = 20 ms)
+	NTPStepMS int         `json:"ntp_step_ms,omitempty"` // the publisher's clock is stepped once per second of media: units of second k carry NTP = T0 + time + k*k*NTPStepMS ms
+	OpusMix   bool        `json:"opus_mix,omitempty"`    // packet k of one WriteOpus call lasts 20, 10, 40 ms (k mod 3)
 	// ParamDelta: the two video parameter sets of the writer differ in exactly this component (h264: sps pps; h265: vps sps
 	// pps; vp9: width height profile bitdepth chroma range); "" = the reference sets, which differ in every component
 	ParamDelta string `json:"param_delta,omitempty"`
@@ -400,6 +401,9 @@ func (c muxCfg) String() string {
 	s := fmt.Sprintf("%s[%s] n=%d S=%dms P=%dms %s", c.Variant, strings.Join(ts, "+"), c.SegCount, c.SegMinMS, c.PartMS, d)
 	if c.MaxSize != 0 {
 		s += fmt.Sprintf(" max=%d", c.MaxSize)
+	}
+	if c.NTPStepMS != 0 {
+		s += fmt.Sprintf(" ntp-step=%dms", c.NTPStepMS)
 	}
 	if c.OpusMix {
 		s += " opus-mix"
@@ -532,7 +536,12 @@ var verifT0 = time.Date(2023, 5, 17, 10, 20, 30, 123_000_000, time.FixedZone("X"
 
 func (mi *muxInst) ntpOf(u wunit) time.Time {
 	clock := int64(mi.cfg.Tracks[u.Track].clock())
-	return verifT0.Add(time.Duration(u.DTS/clock)*time.Second + time.Duration(u.DTS%clock)*time.Second/time.Duration(clock))
+	t := verifT0.Add(time.Duration(u.DTS/clock)*time.Second + time.Duration(u.DTS%clock)*time.Second/time.Duration(clock))
+	if mi.cfg.NTPStepMS != 0 && u.DTS >= 0 {
+		k := u.DTS / clock
+		t = t.Add(time.Duration(k*k*int64(mi.cfg.NTPStepMS)) * time.Millisecond)
+	}
+	return t
 }
 
 func payloadTail(u wunit, k int) []byte {
